@@ -146,7 +146,9 @@ func Ob_C10C07_AddVstorage() {
 	}
 	if had {
 		sym.Assert("C07.add-books-taken", p1.TotalStoragePledged.Amount.Sub(p0.TotalStoragePledged.Amount).Equal(taken))
-		sym.Assert("C07.add-keeps-used", p1.UsedStorage == p0.UsedStorage && p1.TotalStorage >= p0.TotalStorage)
+		// known class: a size whose byte count pushes TotalStorage past 2^63 wraps the int64 counter
+		sym.AssertKF("C07.add-keeps-used", p1.UsedStorage == p0.UsedStorage && p1.TotalStorage >= p0.TotalStorage,
+			sym.KF("KF-C07-1", msg.Size_ >= 1<<50))
 	} else {
 		sym.Assert("C07.add-books-taken", p1.TotalStoragePledged.Amount.Equal(taken))
 	}
